@@ -273,31 +273,109 @@ Proof.
 Qed.
 Print Assumptions C04_box_computers_spec.
 
+(* ex / ch (CSS Values 3 section 5.1.1): a length in ex (ch) on a property computed by `length`
+   is the x-height (the advance of "0") of the font the element's OWN style selects -- the
+   recorded metrics of that node -- scaled by the element's OWN computed font size.  Nothing
+   else enters: not the other unit, not another element or document computed before. *)
+Theorem C04_length_font_metrics_spec : forall (t : tree) (n : N) (nd : node) (p : N) (v : value) q u m (fs : Q),
+  wf_tree t = true ->
+  node_at t n = Some nd -> n_kind nd = KElem ->
+  computer_of p = KLength ->
+  effective nd p = Some (CExplicit v) ->
+  v = VDim "" q u -> uses_metrics u = true ->
+  n_metrics nd = Some m ->
+  (exists sf uf, computed exactQ true t n PFontSize = Ok (VDim sf fs uf)) ->
+  exists r, computed exactQ true t n p = Ok r /\ value_eq r (spec_font_metric_length fs (m_ex m) (m_ch m) U_Px v).
+Proof. intros t n nd p v q u m fs WF. exact (length_metrics_computed t WF n nd p v q u m fs). Qed.
+Print Assumptions C04_length_font_metrics_spec.
+
+(* ... and under any environment, for every caller of length_ (font-size against the parent's
+   font size, border widths, line-height, ...) *)
+Theorem C04_length_font_metrics_program : forall (env : dep -> res value) v fso (fs xh zw : Q) po q u,
+  v = VDim "" q u -> uses_metrics u = true ->
+  (exists s1 u1, env (DRatio false) = Ok (VDim s1 xh u1)) ->
+  (exists s1 u1, env (DRatio true) = Ok (VDim s1 zw u1)) ->
+  match fso with
+  | Some f => (0 <= f)%Q /\ fs = f
+  | None => exists sf uf, env (DOwn PFontSize) = Ok (VDim sf fs uf)
+  end ->
+  exists r, run_pure env (length_ exactQ v fso po) = Ok r /\
+            value_eq r (spec_font_metric_length fs xh zw (if po then U_Scalar else U_Px) v).
+Proof. intros env. exact (length_metric_spec env). Qed.
+Print Assumptions C04_length_font_metrics_program.
+
+(* the ex / ch ratio cache of a document (pr.TextRatioCache + text.CharacterRatio): whatever
+   sequence of (font description, unit) requests is made, each request returns the measure of
+   THAT unit for THAT font description -- which is why the model above reads ex / ch as a
+   function of the node alone *)
+Theorem C04_ratio_cache_transparent : forall (measure : string -> bool -> Q) (reqs : list (string * bool)),
+  character_ratios measure rc_empty reqs = map (fun kb => measure (fst kb) (snd kb)) reqs.
+Proof. intros measure reqs. exact (character_ratios_transparent measure reqs rc_empty (rc_empty_sound measure)). Qed.
+Print Assumptions C04_ratio_cache_transparent.
+
+Theorem C04_ratio_cache_get_set : forall c k b v k' b',
+  rc_get (rc_set c k b v) k' b' = if Bool.eqb b b' && String.eqb k k' then Some v else rc_get c k' b'.
+Proof. exact rc_get_set. Qed.
+Print Assumptions C04_ratio_cache_get_set.
+
+(* bleed (CSS Paged Media 3 / GCPM): `auto` -- no declaration, `initial` or `auto` -- computes
+   to 6pt = 8px when the computed `marks` of the same page context has `crop`, to 0 otherwise
+   (`cross` plays no role); lengths as for `length` *)
+Theorem C04_bleed_auto_spec : forall (t : tree) (n : N) (nd : node) (p : N) crop cross,
+  wf_tree t = true ->
+  node_at t n = Some nd -> n_kind nd = KElem ->
+  computer_of p = KBleed ->
+  (effective nd p = None \/ effective nd p = Some CInitial \/
+   effective nd p = Some (CExplicit (VDim "auto" 0 0))) ->
+  computed exactQ true t n PMarks = Ok (VMarks crop cross) ->
+  exists r, computed exactQ true t n p = Ok r /\ value_eq r (VDim "" (if crop then 8 else 0) U_Px).
+Proof. intros t n nd p crop cross WF. exact (bleed_auto_computed_px t WF n nd p crop cross). Qed.
+Print Assumptions C04_bleed_auto_spec.
+
+Theorem C04_bleed_program_spec : forall (env : dep -> res value) v crop cross (fs rfs : Q) s q u,
+  env (DOwn PMarks) = Ok (VMarks crop cross) ->
+  v = VDim s q u -> (s = "" \/ s = "auto")%string -> uses_metrics u = false -> u < 256 ->
+  (exists sr ur, env DRootFs = Ok (VDim sr rfs ur)) ->
+  (exists sf uf, env (DOwn PFontSize) = Ok (VDim sf fs uf)) ->
+  exists r, run_pure env (bleed exactQ v) = Ok r /\ value_eq r (spec_bleed crop fs rfs v).
+Proof. intros env. exact (bleed_spec env). Qed.
+Print Assumptions C04_bleed_program_spec.
+
 (* ------------------------------------------------------------------ the hypotheses are inhabited *)
 
 (* html { font-size: 2rem; font-weight: lighter } > body { width: 3em; font-size: 150%;
    border-top-width: thick; border-top-style: solid } > (::before { font-weight: bolder }),
    an anonymous box under body, and a page context inheriting from the root *)
+Definition ahem : option metrics := Some (mkMetrics (8 # 10) 1).
 Definition example_tree : tree := Eval vm_compute in
-  [ mkNode None KElem [D PFontSize (CExplicit (VDim "" 2 U_Rem)); D PFontWeight (CExplicit (VIntStr "lighter" 0))] [];
+  [ mkNode None KElem [D PFontSize (CExplicit (VDim "" 2 U_Rem)); D PFontWeight (CExplicit (VIntStr "lighter" 0))] [] ahem;
     mkNode (Some 0) KElem [D (prop_id "width") (CExplicit (VDim "" 3 U_Em)); D PFontSize (CExplicit (VDim "" 150 U_Perc));
                            D PBorderTopWidth (CExplicit (VDim "thick" 0 0));
-                           D (prop_id "border-top-style") (CExplicit (VStr "solid"))] [];
-    mkNode (Some 1) KElem [D PFontWeight (CExplicit (VIntStr "bolder" 0))] [];
-    mkNode (Some 1) KAnon [] [];
-    mkNode (Some 0) KElem [D (prop_id "margin-top") (CExplicit (VDim "" 1 U_In))] [] ].
+                           D (prop_id "border-top-style") (CExplicit (VStr "solid"))] [] ahem;
+    mkNode (Some 1) KElem [D PFontWeight (CExplicit (VIntStr "bolder" 0))] [] ahem;
+    mkNode (Some 1) KAnon [] [] None;
+    mkNode (Some 0) KElem [D (prop_id "margin-top") (CExplicit (VDim "" 1 U_In))] [] ahem;
+    (* <p style="font-size:10px; width:10ex; height:10ch"> in Ahem *)
+    mkNode (Some 1) KElem [D PFontSize (CExplicit (VDim "" 10 U_Px)); D (prop_id "width") (CExplicit (VDim "" 10 U_Ex));
+                           D (prop_id "height") (CExplicit (VDim "" 10 U_Ch))] [] ahem;
+    (* @page { marks: crop } and @page :first { marks: cross; bleed-left: auto } *)
+    mkNode (Some 0) KElem [D PMarks (CExplicit (VMarks true false))] [] ahem;
+    mkNode (Some 0) KElem [D PMarks (CExplicit (VMarks false true)); D (prop_id "bleed-left") (CExplicit (VDim "auto" 0 0))] [] ahem ].
 
 Example example_tree_well_typed : wt_tree example_tree = true.
 Proof. vm_compute. reflexivity. Qed.
 
 Definition example_gets : list (N * N) := Eval vm_compute in
-  [(2, PFontWeight); (1, prop_id "width"); (3, PFontSize); (0, PFontSize); (1, PBorderTopWidth); (4, prop_id "margin-top")].
+  [(2, PFontWeight); (1, prop_id "width"); (3, PFontSize); (0, PFontSize); (1, PBorderTopWidth); (4, prop_id "margin-top");
+   (5, prop_id "height"); (5, prop_id "width"); (6, prop_id "bleed-top"); (7, prop_id "bleed-left"); (7, prop_id "bleed-top")].
 
 Example example_history_ok : hist_ok example_tree [] (init_ops example_tree ++ get_ops example_gets).
 Proof. apply (hist_ok_init example_tree eq_refl). repeat constructor. Qed.
 
 (* root 2rem = 32px, body 150% = 48px, width 3em = 144px, bolder(lighter(400)=100) = 400,
-   thick with a solid style = 5px, 1in = 96px; in that access order, with the caches *)
+   thick with a solid style = 5px, 1in = 96px; 10ch of Ahem at 10px = 100px THEN 10ex = 80px (ch
+   computed first); bleed: 8px under marks: crop, 0 under marks: cross; in that access order,
+   with the caches *)
 Definition same_result (a b : res (option value)) : bool :=
   match a, b with
   | Ok None, Ok None => true
@@ -308,8 +386,10 @@ Definition same_result (a b : res (option value)) : bool :=
 Example example_values :
   forallb (fun ab => same_result (fst ab) (snd ab))
     (combine (snd (run_ops exactQ true example_tree empty_styles (init_ops example_tree ++ get_ops example_gets)))
-             [Ok None; Ok None; Ok None; Ok None; Ok None;
+             [Ok None; Ok None; Ok None; Ok None; Ok None; Ok None; Ok None; Ok None;
               Ok (Some (VIntStr "" 400)); Ok (Some (VDim "" 144 U_Px)); Ok (Some (VDim "" 48 U_Scalar));
-              Ok (Some (VDim "" 32 U_Scalar)); Ok (Some (VDim "" 5 U_Scalar)); Ok (Some (VDim "" 96 U_Px))]) = true
-  /\ List.length (snd (run_ops exactQ true example_tree empty_styles (init_ops example_tree ++ get_ops example_gets))) = 11%nat.
+              Ok (Some (VDim "" 32 U_Scalar)); Ok (Some (VDim "" 5 U_Scalar)); Ok (Some (VDim "" 96 U_Px));
+              Ok (Some (VDim "" 100 U_Px)); Ok (Some (VDim "" 80 U_Px));
+              Ok (Some (VDim "" 8 U_Px)); Ok (Some (VDim "" 0 U_Px)); Ok (Some (VDim "" 0 U_Px))]) = true
+  /\ List.length (snd (run_ops exactQ true example_tree empty_styles (init_ops example_tree ++ get_ops example_gets))) = 19%nat.
 Proof. split; vm_compute; reflexivity. Qed.
